@@ -304,7 +304,7 @@ fn rot_in(a: &B16) -> B16 {
     t
 }
 
-//@ harness name=kuz_lin_mul prop=C07 tier=quick bits=20 variants=kuznyechik est=15 desc="L (oracle only, direct): for the sixteen coefficients c_j of l and all octets a, b: mul_lc(j, a) == gf_mul(c_j, a) (schoolbook field multiplication mod x^8+x^7+x^6+x+1) and mul_lc(j, a ^ b) == mul_lc(j, a) ^ mul_lc(j, b); j symbolic"
+//@ harness name=kuz_lin_mul prop=C07 tier=quick bits=20 variants=kuznyechik est=20 desc="L (oracle only, direct): for the sixteen coefficients c_j of l and all octets a, b: mul_lc(j, a) == gf_mul(c_j, a) (schoolbook field multiplication mod x^8+x^7+x^6+x+1) and mul_lc(j, a ^ b) == mul_lc(j, a) ^ mul_lc(j, b); j symbolic"
 verif_harness! {
     name: kuz_lin_mul,
     bytes: 3,
@@ -317,7 +317,7 @@ verif_harness! {
     }
 }
 
-//@ harness name=kuz_lin_lfunc prop=C07 tier=quick bits=256 stub=1 variants=kuznyechik est=20 desc="W (oracle only): l_func(u ^ v) == l_func(u) ^ l_func(v) for all 2^256 (u, v); the oracle's mul_lc is an uninterpreted function, its sixteen additivity instances at (u_j, v_j) assumed (lemma kuz_lin_mul)"
+//@ harness name=kuz_lin_lfunc prop=C07 tier=quick bits=256 stub=1 variants=kuznyechik est=25 desc="W (oracle only): l_func(u ^ v) == l_func(u) ^ l_func(v) for all 2^256 (u, v); the oracle's mul_lc is an uninterpreted function, its sixteen additivity instances at (u_j, v_j) assumed (lemma kuz_lin_mul)"
 verif_harness! {
     name: kuz_lin_lfunc,
     bytes: 32,
@@ -367,7 +367,7 @@ fn lin_l(inp: &[u8], inv: bool) -> Option<bool> {
     }
 }
 
-//@ harness name=kuz_lin_l prop=C07 tier=quick bits=256 stub=1 variants=kuznyechik est=110 need=7 desc="W (oracle only): L(u ^ v) == L(u) ^ L(v) for all 2^256 (u, v), L = R^16 of the oracle; the oracle's l_func is an uninterpreted function {0,1}^128 -> {0,1}^8 and its additivity at the 16 points (u_s, v_s) of the two runs is assumed (lemma kuz_lin_lfunc); the rest is shift wiring and functional consistency"
+//@ harness name=kuz_lin_l prop=C07 tier=quick bits=256 stub=1 variants=kuznyechik est=120 need=7 desc="W (oracle only): L(u ^ v) == L(u) ^ L(v) for all 2^256 (u, v), L = R^16 of the oracle; the oracle's l_func is an uninterpreted function {0,1}^128 -> {0,1}^8 and its additivity at the 16 points (u_s, v_s) of the two runs is assumed (lemma kuz_lin_lfunc); the rest is shift wiring and functional consistency"
 verif_harness! {
     name: kuz_lin_l,
     bytes: 32,
@@ -375,7 +375,7 @@ verif_harness! {
     stubs: [(refmodels::kuznyechik::l_func, stub_l_func)],
     prop: |inp| { lin_l(inp, false) }
 }
-//@ harness name=kuz_lin_linv prop=C07 tier=quick bits=256 stub=1 variants=kuznyechik est=100 need=7 desc="W (oracle only): L^-1(u ^ v) == L^-1(u) ^ L^-1(v) for all 2^256 (u, v), L^-1 = (R^-1)^16 of the oracle, same shape as kuz_lin_l -- the lemma whose instances (lin_instances) the decryption harnesses of the table back ends assume"
+//@ harness name=kuz_lin_linv prop=C07 tier=quick bits=256 stub=1 variants=kuznyechik est=120 need=7 desc="W (oracle only): L^-1(u ^ v) == L^-1(u) ^ L^-1(v) for all 2^256 (u, v), L^-1 = (R^-1)^16 of the oracle, same shape as kuz_lin_l -- the lemma whose instances (lin_instances) the decryption harnesses of the table back ends assume"
 verif_harness! {
     name: kuz_lin_linv,
     bytes: 32,
@@ -384,7 +384,7 @@ verif_harness! {
     prop: |inp| { lin_l(inp, true) }
 }
 
-//@ harness name=kuz_oracle_consts prop=C07 tier=quick bits=5 variants=kuznyechik est=20 desc="L (oracle only): the compile-time table CS[i] == c(i + 1) = L(Vec128(i + 1)) evaluated by the solver, i symbolic in 0..32 (CS replaces c in the key schedule queries)"
+//@ harness name=kuz_oracle_consts prop=C07 tier=quick bits=5 variants=kuznyechik est=30 desc="L (oracle only): the compile-time table CS[i] == c(i + 1) = L(Vec128(i + 1)) evaluated by the solver, i symbolic in 0..32 (CS replaces c in the key schedule queries)"
 verif_harness! {
     name: kuz_oracle_consts,
     bytes: 1,
@@ -395,7 +395,7 @@ verif_harness! {
     }
 }
 
-//@ harness name=kuz_l_inverse_fb prop=C07,C01 tier=quick bits=128 variants=kuznyechik est=115 need=4 desc="L (oracle only, stepwise, direct): R^-1(R(a)) == a along the 16 steps of L, hence L^-1(L(x)) == x for all 2^128 x (with kuz_l_inverse_bf: justifies L / L^-1 as an uninterpreted inverse pair)"
+//@ harness name=kuz_l_inverse_fb prop=C07,C01 tier=quick bits=128 variants=kuznyechik est=145 need=4 desc="L (oracle only, stepwise, direct): R^-1(R(a)) == a along the 16 steps of L, hence L^-1(L(x)) == x for all 2^128 x (with kuz_l_inverse_bf: justifies L / L^-1 as an uninterpreted inverse pair)"
 verif_harness! {
     name: kuz_l_inverse_fb,
     bytes: 16,
@@ -450,7 +450,7 @@ verif_harness! {
     }
 }
 
-//@ harness name=kuz_oracle_roundtrip prop=C01 tier=quick bits=1408 variants=kuznyechik est=140 desc="W (oracle only): D(E(b)) == b and E(D(b)) == b for arbitrary round keys and all blocks, S and L uninterpreted inverse pairs (with C07: enc == E and dec == D on every back end, this is the round trip of every back end)"
+//@ harness name=kuz_oracle_roundtrip prop=C01 tier=quick bits=1408 variants=kuznyechik est=110 desc="W (oracle only): D(E(b)) == b and E(D(b)) == b for arbitrary round keys and all blocks, S and L uninterpreted inverse pairs (with C07: enc == E and dec == D on every back end, this is the round trip of every back end)"
 verif_harness! {
     name: kuz_oracle_roundtrip,
     bytes: 160 + 16,
